@@ -155,8 +155,9 @@ func init() {
 				var order []net.Conn
 				gate := make(chan struct{})
 				s := &fasthttp.Server{
-					Concurrency: conc,
-					Logger:      nopLogger{},
+					Concurrency:       conc,
+					ReduceMemoryUsage: len(a) > 2 && string(a[2]) == "sdrm",
+					Logger:            nopLogger{},
 					Handler: func(ctx *fasthttp.RequestCtx) {
 						if ctx.QueryArgs().Has("hold") {
 							<-gate
@@ -196,6 +197,28 @@ func init() {
 				time.Sleep(20 * time.Millisecond)
 				close(gate)
 				time.Sleep(20 * time.Millisecond)
+				// a[2] = "sd" / "sdrm": the connections are not closed by their clients but given up by Server.Shutdown
+				// (idle keep-alive connections are closed by the server), with ReduceMemoryUsage off / on
+				shutdownNote := ""
+				if len(a) > 2 && strings.HasPrefix(string(a[2]), "sd") {
+					sdDone := make(chan error, 1)
+					go func() { sdDone <- s.Shutdown() }()
+					// connections on which no request was ever sent are not idle keep-alive connections: their clients go away
+					time.Sleep(30 * time.Millisecond)
+					for i, c := range conns {
+						if i < len(scripts) && !strings.ContainsAny(scripts[i], "sH") {
+							c.Close()
+						}
+					}
+					select {
+					case err := <-sdDone:
+						if err != nil {
+							shutdownNote = "Shutdown: " + err.Error()
+						}
+					case <-time.After(10 * time.Second):
+						shutdownNote = "Shutdown did not return within 10 s"
+					}
+				}
 				for _, c := range conns {
 					c.Close()
 				}
@@ -228,12 +251,19 @@ func init() {
 				for _, w := range ws {
 					lines = append(lines, Line("connstates", nil, B(w)))
 				}
-				return &Case{Lines: lines, Impl: impl, Nontrivial: strings.ContainsAny(string(a[1]), "sH"), Tags: []string{"serve"},
+				ending := "clients-close"
+				if len(a) > 2 && len(a[2]) > 0 {
+					ending = string(a[2])
+				}
+				return &Case{Lines: lines, Impl: impl, Nontrivial: strings.ContainsAny(string(a[1]), "sH"), Tags: []string{"serve", "serve-ending=" + ending},
 					Judge: func(r []string) Verdict {
+						if shutdownNote != "" {
+							return Verdict{VInconclusive, "shutdown", shutdownNote}
+						}
 						for i, rep := range r {
 							f := strings.Fields(rep)
 							if len(f) == 2 && f[1] == "false" {
-								return Verdict{VSpec, "connstate-not-in-language", fmt.Sprintf("Serve concurrency=%d scripts=%q: hook calls per connection %q; connection #%d is not in the language", conc, a[1], impl, i)}
+								return Verdict{VSpec, "connstate-not-in-language", fmt.Sprintf("Serve concurrency=%d scripts=%q ending=%q: hook calls per connection %q; connection #%d is not in the language", conc, a[1], ending, impl, i)}
 							}
 						}
 						if len(ws) < len(conns) {
@@ -271,7 +301,7 @@ func init() {
 				for j, m := 0, 1+r.Intn(3); j < m; j++ {
 					parts = append(parts, r.Pick([]string{"s", "ss", "n", "H", "sH", ""}))
 				}
-				emit("serve", []byte{byte('0' + r.Intn(2))}, B(strings.Join(parts, "|")))
+				emit("serve", []byte{byte('0' + r.Intn(2))}, B(strings.Join(parts, "|")), B(r.Pick([]string{"", "", "sd", "sdrm"})))
 			}
 			_ = bytes.MinRead
 		},
